@@ -112,7 +112,12 @@ pub fn specs() -> Vec<PropSpec> {
                 published tree shows products under one key per class \
                 only; at the end 8 rounds of refresh/pump/activate must \
                 bring every class to the single active key state. \
-                Non-trivial/distinct as for C01.",
+                Non-trivial/distinct as for C01. The trust anchor signer goes off-line and \
+                comes back as generated operations (while it is away \
+                the proxy/signer synchronisation is held back, requests \
+                of the trust anchor's children wait at the proxy); half \
+                of the roll steps are taken by CAs directly under the \
+                trust anchor.",
             assumptions: COMMON_ASSUMPTIONS,
         },
         PropSpec {
@@ -155,7 +160,14 @@ pub fn specs() -> Vec<PropSpec> {
                 session, serial) are compared between the live managers \
                 and second managers built on the same storage. Any panic \
                 or load error is a violation. Non-trivial/distinct as for \
-                C01.",
+                C01. Part c07fail: a sequential prefix, then 3-7 \
+                bursts of 2-4 API calls against one CA issued back to \
+                back without any read in between, the k-th storage \
+                mutation (k 1-7) of one call per burst failing with an \
+                I/O error; after every burst, after the pump that may \
+                follow and after a final restart the same three-way \
+                comparison runs (what a failed write leaves in the \
+                aggregate cache must not differ from what is stored).",
             assumptions: COMMON_ASSUMPTIONS,
         },
         PropSpec {
@@ -226,7 +238,11 @@ pub fn specs() -> Vec<PropSpec> {
                 moves every running task back to pending. \
                 distinct_nontrivial counts distinct cut triples \
                 (operation kind | mutation site class | crash) plus \
-                distinct queue operation logs.",
+                distinct queue operation logs. (3) c10fail: publication runs in which a \
+                write of the task store fails while a delta is \
+                processed: an RRDP update queued for an earlier, \
+                acknowledged publication must still take place (at the \
+                next quiescence the RRDP snapshot holds it).",
             assumptions: CUT_ASSUMPTIONS,
         },
         PropSpec {
@@ -258,7 +274,13 @@ pub fn specs() -> Vec<PropSpec> {
                 population, and at quiescence the snapshot must equal \
                 the publishers' content with nothing foreign below any \
                 publisher's base. Non-trivial: at least one accepted \
-                delta; distinct: distinct operation/result logs.",
+                delta; distinct: distinct operation/result logs. Part c10fail: the same runs with a fifth of \
+                the deltas sent while the k-th storage or file-system \
+                mutation of the request (k 1-5) fails with an I/O \
+                error: afterwards the list reply must be the content \
+                from before or the content the whole delta produces, \
+                never a part of it, and a positive reply means \
+                applied.",
             assumptions: COMMON_ASSUMPTIONS,
         },
         PropSpec {
@@ -473,7 +495,15 @@ pub fn specs() -> Vec<PropSpec> {
                 normalised observable state after quiescence must be \
                 equal. Non-trivial: at least one accepted command; \
                 distinct: distinct (decision list, operations, results) \
-                fingerprints.",
+                fingerprints. Part c07fail: bursts of 2-4 calls against one \
+                CA without reads in between, one call per burst with \
+                its k-th storage mutation failing (pre-save writes of \
+                object set and task queue, the command, post-save \
+                writes); after every burst the stored command numbers \
+                of every CA must be 0..n without a gap, the live \
+                version must be n, refused calls must have left one \
+                error record and acknowledged ones at most one record \
+                each, and live state = replayed state.",
             assumptions: CONC_ASSUMPTIONS,
         },
         PropSpec {
